@@ -321,7 +321,7 @@ func main() {
 	}
 	if i, n, worker := vcommon.ShardSpec(); worker {
 		var err error
-		if tmpDir, err = os.MkdirTemp("", "c09"); err != nil {
+		if tmpDir, err = vcommon.TempDir("", "c09"); err != nil {
 			vcommon.Infra("%v", err)
 		}
 		defer os.RemoveAll(tmpDir)
